@@ -57,6 +57,103 @@ def plumbing_unit():
     return Unit("C11.plumbing[_add_list_attr_with_limits]", h, bounds={"forms": ["list with (name,(lo,hi))", "comma/space string", "list of names"]})
 
 
+def interp_model(c):
+    """numpy.interp(xq, xp, fp) for increasing xp: clamp at the ends, linear in between (forks on the position)"""
+    def interp(xq, xp, fp, **kw):
+        xp = [v for v in np.asarray(xp, dtype=object).ravel()]
+        fp = [v for v in np.asarray(fp, dtype=object).ravel()]
+        out = []
+        for q in np.asarray(xq, dtype=object).ravel():
+            if bool(q <= xp[0]):
+                out.append(fp[0])
+                continue
+            if bool(q >= xp[-1]):
+                out.append(fp[-1])
+                continue
+            for k in range(len(xp) - 1):
+                if k == len(xp) - 2 or bool(q < xp[k + 1]):
+                    w = (q - xp[k]) / (xp[k + 1] - xp[k])
+                    out.append(fp[k] + w * (fp[k + 1] - fp[k]))
+                    break
+        return np.array(out, dtype=object)
+    return interp
+
+
+def gridded_tau_unit(S, m_steps, n_grid):
+    """gridded tau-leap output: the real solve_stochast(exact=False) post-processing on an arbitrary recorded
+    path whose states are within symbolic limits; every returned row must be within the limits too (it is the
+    interpolation of the recorded states of ITS OWN component at the requested time)"""
+    from pygom.model import simulate as simmod
+    from .c01 import built
+    from .. import stubs
+    spec = [s_ for s_ in shape_specs() if s_.name == "shape_%dx2" % S][0]
+
+    def h(c):
+        if c.mode != "sym":
+            return
+        model = built(spec)
+        lims = sym_limits(c, S, "sym")
+        t0 = c.real("t0")
+        ts = [t0]
+        for i in range(m_steps):
+            ti = c.real("e%d" % i)
+            c.assume(ti > ts[-1])
+            ts.append(ti)
+        X = [[(c.intreal("p%d_%d" % (i, s_)) if i == 0 else c.real("p%d_%d" % (i, s_))) for s_ in range(S)] for i in range(m_steps + 1)]
+        for row in X:
+            c.assume(within(row, lims))
+        g = [t0]
+        for k in range(1, n_grid + 1):
+            gk = c.real("g%d" % k)
+            c.assume(gk > g[-1])
+            g.append(gk)
+        Xa = np.array(X, dtype=object)
+        Ja = np.array([[c.intreal("n%d_%d" % (i, j), lo=0, hi=5) for j in range(2)] for i in range(m_steps)], dtype=object)
+        Ta = arr(c, ts)
+
+        def fake_jump(finalT, exact=False, full_output=True, seed=None):
+            return Xa.copy(), Ja.copy(), Ta.copy(), arr(c, [Ta[i + 1] - Ta[i] for i in range(m_steps)])
+        npx = stubs.NumpyObjProxy()
+        npx.interp = interp_model(c)
+        model.initial_values = (arr(c, X[0]), t0)
+        model._x0 = arr(c, X[0])
+        with stubs.patched((model, "_jump", fake_jump), (simmod, "np", npx)):
+            simX, simJ, tout = model.solve_stochast(np.array(g, dtype=object), 1, exact=False, full_output=True)
+        rows = simX[0]
+        c.reachable("gridded tau-leap output produced")
+        c.prove(len(rows) == n_grid + 1, "one row per requested time")
+        c.prove(all_close(list(rows[0]), X[0], c), "first row is the initial state")
+        for k in range(n_grid + 1):
+            c.prove(within(list(rows[k]), lims), "gridded tau-leap row %d is within the declared limits" % k)
+            for s_ in range(S):
+                lo = X[0][s_]
+                col = [X[i][s_] for i in range(m_steps + 1)]
+                c.prove(conj([rows[k][s_] <= _max(col), rows[k][s_] >= _min(col)]), "row %d, state %d lies between the recorded values of that state" % (k, s_))
+    return Unit("C11.gridded_tau[S=%d,steps=%d,grid=%d]" % (S, m_steps, n_grid), h,
+                bounds={"states": S, "recorded_steps": m_steps, "grid_points": n_grid + 1, "np.interp": "piecewise-linear model with clamping"},
+                max_paths=20000, fidelity=0)
+
+
+def _max(vals):
+    import z3
+    from ..sym import Sym, to_z3, _real
+    acc = _real(to_z3(vals[0]))
+    for v in vals[1:]:
+        vz = _real(to_z3(v))
+        acc = z3.If(vz > acc, vz, acc)
+    return Sym(acc)
+
+
+def _min(vals):
+    import z3
+    from ..sym import Sym, to_z3, _real
+    acc = _real(to_z3(vals[0]))
+    for v in vals[1:]:
+        vz = _real(to_z3(v))
+        acc = z3.If(vz < acc, vz, acc)
+    return Sym(acc)
+
+
 class C11(Check):
     id = "C11"
     level = "model_checking"
@@ -64,15 +161,18 @@ class C11(Check):
                    "lower / upper / two-sided limit per state); one symbolic step of firstReaction and tauLeap from an arbitrary state inside "
                    "symbolic limits with symbolic integer magnitudes up to 3, symbolic counts and tau (inductive step: inside-limits is "
                    "preserved, a rejected step changes nothing); the real _jump loop unwound K steps with symbolic limits incl. the tau-leap -> "
-                   "first-reaction fall-back; and the plumbing from the three declaration forms to _state_lims.")
+                   "first-reaction fall-back; the gridded tau-leap output (interpolation of the recorded states, component by component); and the plumbing "
+                   "from the three declaration forms to _state_lims.")
     stubs = ["numpy global RNG streams", "_cy_test_tau_leap_safety contract", "transitionMean/Var havoc in tau-leap mode"]
-    assumptions = ["initial state within limits", "gridded tau-leap output is np.interp of recorded states (convex combinations stay within limits; np.interp itself not executed)",
+    assumptions = ["initial state within limits", "gridded tau-leap output: the real post-processing runs on an arbitrary recorded path within the limits, with np.interp replaced by a piecewise-linear model (clamped at the ends)",
                    "floats as reals", "walks longer than K steps only through the inductive one-step harness"]
 
     def units(self, tier, seed):
-        us = [check_jump_unit(2), plumbing_unit()]
+        us = [check_jump_unit(2), plumbing_unit(), gridded_tau_unit(2, 1, 2)]
         if tier != "quick":
             us.append(check_jump_unit(3))
+            us.append(gridded_tau_unit(1, 3, 2))
+            us.append(gridded_tau_unit(2, 2, 2))
         us.append(first_reaction_unit(2, 2, lim_mode="sym", asserts=("walk", "limits"), tag="C11"))
         us.append(tau_leap_unit(2, 1, True, lim_mode="sym", asserts=("walk", "limits"), tag="C11"))
         us.append(tau_leap_unit(1, 2, False, lim_mode="sym", asserts=("walk", "limits"), tag="C11"))
